@@ -256,7 +256,7 @@ def gen_lifecycle(rng, big=False):
         s.es(e, sch, mine)
     npool = len(pools)
     for _ in range(rng.randint(1, 5 if big else 3)):
-        what = rng.choice(["cancel_early", "cancel_mid", "cancel_task", "exit", "revive", "revive_task"])
+        what = rng.choice(["cancel_early", "cancel_mid", "cancel_task", "exit", "revive", "revive_task", "cancel_revive", "cancel_revive"])
         pool = pick_pool(rng, npool)
         if what == "cancel_early":
             t = s.unit("U", "N", pool, ["Y"] * 3)
@@ -272,6 +272,17 @@ def gen_lifecycle(rng, big=False):
             s.main.append("C%d" % t)
             if s.units[t][1] == "N":
                 s.main.append("F%d" % t)
+        elif what == "cancel_revive":
+            # a unit that was cancelled (before it ran, while it ran, or after it had finished) is revived: the new
+            # incarnation starts with no request and runs exactly once
+            kind = rng.choice("UUT")
+            t = s.unit(kind, "N", pool, ["W"] if kind == "T" else ["Y"] * rng.choice([0, 3, 8]))
+            s.main += ["C%d" % t] + ["Y"] * rng.randint(0, 2) + ["K%d" % t]
+            for _ in range(rng.randint(1, 3)):
+                s.main += ["J%d" % t, "V%d" % t]
+                if rng.random() < 0.3:
+                    s.main += ["Y"] * rng.randint(0, 2) + ["K%d" % t]
+            s.main.append("F%d" % t)
         elif what == "revive":
             t = s.unit("U", "N", pool, ["W"] + ["Y"] * rng.randint(0, 2))
             s.main += ["C%d" % t]
